@@ -2,8 +2,9 @@
   C18 — Operators are persistent values: inputs never mutated, flatten round-trips.
 
   Two mechanisms, two models:
-  * in-place writes: Model/Heap.lean (buffer-event IR + ownership), the GENERATED table
-    Gen/InplaceSites.lean, the allow-list Lemmas/PersistSites.lean;
+  * in-place writes: Model/Heap.lean (buffer-event IR + ownership, incl. the interprocedural edge
+    `call`), the GENERATED table Gen/InplaceSites.lean with the reasons the scanner established by
+    analysis, the acceptance rule Lemmas/PersistSites.lean (no prose allow-list; one named clause);
   * the class-level attribute registry behind flatten/unflatten: Model/Registry.lean.
   The correspondence (harness/props/c18.py) compares bytes of every caller-owned array and operator
   after every operation of exhaustive short histories, and runs flatten/unflatten in fresh
@@ -41,7 +42,11 @@ theorem C18_safe_discipline_needed :
   ⟨write_param_can_change, write_matmul_result_can_change⟩
 
 /-- Every in-place site of the library (generated table, regenerated from the AST on every run) obeys
-    the discipline or is on the explicit allow-list with its reason. -/
+    the discipline, or carries a reason ESTABLISHED BY THE SCANNER whose data are checked here
+    (`Reason.holds`, `Reason.wellFormed`: caller-side slices of every call site ending in `call`, defining
+    slices of every store to an owned field, zero reads of a write-only attribute, class-level target),
+    or is the one row of the named clause `identity-to-mutates-receiver` (`allowList`, see
+    `C18_clause_rows`).  Round 1 accepted 14 rows by a prose allow-list. -/
 theorem C18_sites : ∀ s ∈ Gen.InplaceSites.sites, s.inScope = true → s.ok = true := by
   have h : Gen.InplaceSites.sites.all (fun s => !s.inScope || s.ok) = true := by decide +kernel
   intro s hs hsc
@@ -54,14 +59,17 @@ theorem C18_sites_classes : ∀ s ∈ Gen.InplaceSites.sites, s.classConsistent 
   have h : Gen.InplaceSites.sites.all (fun s => s.classConsistent) = true := by decide +kernel
   exact fun s hs => List.all_eq_true.mp h s hs
 
-/-- every entry of the allow-list is used (no stale exemptions) -/
+/-- every entry of the named-clause list is used (no stale entries): it matches a library row that the
+    discipline rejects -/
 theorem C18_allow_list_tight :
     ∀ a ∈ allowList, Gen.InplaceSites.sites.any
       (fun s => s.inScope && !writesOnlyFresh s.prog && a.file == s.file && a.func == s.func && a.target == s.target) = true := by
   decide
 
-/-- `C18_sites` + `C18_safe`: every library site that is not on the allow-list sits in a slice all of
-    whose executions leave the caller's buffers alone. -/
+/-- `C18_sites` + `C18_safe`: every library site that needs neither a reason nor the named clause
+    (`allowed = false`) sits in a slice all of whose executions leave the caller's buffers alone.  The
+    rows accepted through a reason are covered by `C18_reasons_safe` (the slices of ALL their callers /
+    of ALL stores to the field). -/
 theorem C18_sites_safe : ∀ site ∈ Gen.InplaceSites.sites, site.inScope = true → site.allowed = false →
     ∀ s s' : St, s.WF → Exec site.prog s s' →
       ∀ b, s.own b = Owner.caller → s'.heap b = s.heap b ∧ s'.own b = Owner.caller := by
@@ -69,6 +77,65 @@ theorem C18_sites_safe : ∀ site ∈ Gen.InplaceSites.sites, site.inScope = tru
   have hok := C18_sites site hmem hsc
   simp only [Site.ok, hal, Bool.false_or] at hok
   exact C18_safe site.prog hok
+
+/-! ### round 2: the reasons are checked data, the interprocedural edge `call` is exercised -/
+
+/-- INTERPROCEDURAL part.  For every library row accepted through an established reason, every program
+    the reason carries — the caller-side slice of EVERY call site of a private helper / of the backend
+    primitive, ending in `call [arg] r [arg]` (the callee may store anything into the buffer of `arg`,
+    `WritesOnly`), and the defining slice of EVERY store to an owned field, ending in `write` — leaves
+    every caller-owned buffer unchanged in every execution. -/
+theorem C18_reasons_safe : ∀ site ∈ Gen.InplaceSites.sites, site.inScope = true → site.reason.holds = true →
+    ∀ p ∈ site.reason.progs, ∀ s s' : St, s.WF → Exec p s s' →
+      ∀ b, s.own b = Owner.caller → s'.heap b = s.heap b ∧ s'.own b = Owner.caller := by
+  intro site _ _ hh p hp
+  exact C18_safe p (reason_progs_fresh site.reason hh p hp)
+
+/-- every library row is accepted by the discipline, by a CHECKED reason (programs obey the discipline and
+    have the shape `… call [arg] …` / `… write`, read counts are zero), or is one of the rows of the
+    named-clause list — there is no fourth way. -/
+theorem C18_sites_mechanical : ∀ s ∈ Gen.InplaceSites.sites, s.inScope = true →
+    writesOnlyFresh s.prog = true ∨ (s.reason.holds = true ∧ s.reason.wellFormed = true) ∨ s.byClause = true := by
+  intro s hs hsc
+  have h := C18_sites s hs hsc
+  simp only [Site.ok, Site.allowed, Bool.or_eq_true, Bool.and_eq_true] at h
+  rcases h with (h | h) | h
+  · exact Or.inr (Or.inr h)
+  · exact Or.inr (Or.inl h)
+  · exact Or.inl h
+
+/-- the rows that rest on the named clause: exactly one (`Identity.to`), and no reason the scanner could
+    establish holds for it (its `device` attribute is read by the library) -/
+theorem C18_clause_rows :
+    (Gen.InplaceSites.sites.filter (fun s => s.inScope && s.byClause)).map (fun s => (s.func, s.target, s.reason.holds))
+      = [("Identity.to", "self.device", false)] := by
+  decide +kernel
+
+/-- the interprocedural constructor of the IR is exercised by the generated table: some library row is
+    accepted through caller-side slices ending in `call` -/
+theorem C18_call_edges_present :
+    (Gen.InplaceSites.sites.filter (fun s => s.inScope && !writesOnlyFresh s.prog && s.reason.holds &&
+        !s.reason.progs.isEmpty && s.reason.progs.all endsInCall)).length ≥ 4 := by
+  decide +kernel
+
+/-- … and its discipline is needed: handing a buffer bound at entry (a parameter) to a callee that writes
+    has an execution that changes a caller-owned buffer -/
+theorem C18_call_discipline_needed :
+    ∃ s s' : St, s.WF ∧ Exec [.call [0] 1 [0]] s s' ∧ ∃ b, s.own b = Owner.caller ∧ s'.heap b ≠ s.heap b := by
+  let s : St := { env := fun _ => some 0, heap := fun _ => 0, own := fun b => if b = 0 then Owner.caller else Owner.localBuf, next := 1 }
+  refine ⟨s, ((s.store 0 1).alloc 1 0), ?_, ?_, 0, ?_, ?_⟩
+  · intro b hb
+    by_cases e : b = 0
+    · subst e; exact Nat.zero_lt_one
+    · simp [s, e] at hb
+  · refine Exec.cons _ _ _ _ _ (Step.callNew s (s.store 0 1) [0] 1 [0] 0 ?_ ?_) (Exec.nil _)
+    · intro w _; exact ⟨0, rfl⟩
+    · refine ⟨rfl, rfl, rfl, ?_⟩
+      intro b hb
+      have : b ≠ 0 := fun e => hb 0 (by simp) (by simp [s, e])
+      simp [St.store, this]
+  · simp [s]
+  · simp [s, St.store, St.alloc]
 
 /-! ## flatten / unflatten -/
 
@@ -271,6 +338,11 @@ end C18
 #print axioms C18.C18_sites_classes
 #print axioms C18.C18_allow_list_tight
 #print axioms C18.C18_sites_safe
+#print axioms C18.C18_reasons_safe
+#print axioms C18.C18_sites_mechanical
+#print axioms C18.C18_clause_rows
+#print axioms C18.C18_call_edges_present
+#print axioms C18.C18_call_discipline_needed
 #print axioms C18.C18_roundtrip
 #print axioms C18.C18_verdict_fixed
 #print axioms C18.C18_verdict_is_first
